@@ -52,3 +52,193 @@ theorem patch2_lt (text p : Nat) (ht : text < W64) (hp : p < 65536) : patch2 tex
   unfold patch2 W64 at *; omega
 
 end BsVerif.Call
+
+namespace BsVerif.Call
+open BsVerif.Mem BsVerif.Gen.CallAbi
+
+/-! ### the run in which no ptrace request fails -/
+def NoFail (W : World) : Prop := ∀ k i, W.fails k i = false
+
+/-- the tracee after an operation, forgetting the debugger's bookkeeping (log, counters) -/
+theorem bind_eq {α β} (m : M α) (f : α → M β) (d : Dbg) :
+    (m >>= f) d = match m d with
+      | (.ok a, d') => f a d'
+      | (.err e, d') => (.err e, d')
+      | (.panic, d') => (.panic, d') := rfl
+
+theorem pure_eq {α} (a : α) (d : Dbg) : (pure a : M α) d = (.ok a, d) := rfl
+
+theorem peekOp_nf {W : World} (h : NoFail W) (a : Addr) (d : Dbg) :
+    peekOp W a d = (.ok (peek d.t.mem a), emit (bump d .peek) (.peek a true)) := by
+  simp [peekOp, h .peek]
+
+theorem pokeOp_nf {W : World} (h : NoFail W) (a : Addr) (w : Nat) (d : Dbg) :
+    pokeOp W a w d = (.ok (), emit { bump d .poke with t := { d.t with mem := poke d.t.mem a w } } (.poke a w true)) := by
+  simp [pokeOp, h .poke]
+
+theorem getregsOp_nf {W : World} (h : NoFail W) (d : Dbg) :
+    getregsOp W d = (.ok d.t.regs, emit (bump d .getregs) (.getregs true)) := by
+  simp [getregsOp, h .getregs]
+
+theorem setregsOp_nf {W : World} (h : NoFail W) (r : RegFile) (d : Dbg) :
+    setregsOp W r d = (.ok (), emit { bump d .setregs with t := { d.t with regs := r } } (.setregs r true)) := by
+  simp [setregsOp, h .setregs]
+
+theorem stepOp_nf {W : World} (h : NoFail W) (d : Dbg) :
+    stepOp W d = (.ok (), emit { bump d .step with t := cpuStep W d.t } (.step true)) := by
+  simp [stepOp, h .step]
+
+theorem contOp_nf {W : World} (h : NoFail W) (d : Dbg) :
+    contOp W d = (.ok (), emit { bump d .cont with t := cpuCont W d.t } (.cont true)) := by
+  simp [contOp, h .cont]
+
+@[simp] theorem emit_t (d : Dbg) (e : Ev) : (emit d e).t = d.t := rfl
+@[simp] theorem emit_bps (d : Dbg) (e : Ev) : (emit d e).bps = d.bps := rfl
+@[simp] theorem bump_t (d : Dbg) (k : Op) : (bump d k).t = d.t := rfl
+@[simp] theorem bump_bps (d : Dbg) (k : Op) : (bump d k).bps = d.bps := rfl
+
+theorem isErrno_false (v : Nat) (h : v < W64 - 4095) : isErrno v = false := by
+  unfold isErrno W64 at *; simp; omega
+
+/-- single step over the patched-in `syscall` with the registers of `CallHelper::mmap` -/
+theorem cpuStep_mmap (W : World) (t : Tracee) (hcode : peek t.mem (t.regs Rip) % 65536 = SYSCALL)
+    (h0 : t.regs Rax = MMAP) (h1 : t.regs Rdi = 0) (h2 : t.regs Rsi = PAGE_SIZE) (h3 : t.regs Rdx = PROT)
+    (h4 : t.regs R10 = FLAGS) (h5 : t.regs R8 = W64 - 1) (h6 : t.regs R9 = 0) (hp : isErrno W.mmapRes = false) :
+    cpuStep W t = { t with regs := syscallRet t W.mmapRes, pages := W.mmapRes :: t.pages,
+                           mem := fun a => if inPage W.mmapRes a then 0 else t.mem a } := by
+  simp only [cpuStep, hcode, h0, h1, h2, h3, h4, h5, h6, hp, and_self, if_true]
+  simp
+
+theorem cpuStep_munmap (W : World) (t : Tracee) (hcode : peek t.mem (t.regs Rip) % 65536 = SYSCALL)
+    (h0 : t.regs Rax = MUNMAP) (h2 : t.regs Rsi = PAGE_SIZE) (h1 : t.regs Rdi ∈ t.pages) :
+    cpuStep W t = { t with regs := syscallRet t 0, pages := t.pages.erase (t.regs Rdi),
+                           mem := fun a => if inPage (t.regs Rdi) a then 0 else t.mem a } := by
+  have : MUNMAP ≠ MMAP := by decide
+  simp only [cpuStep, hcode, h0, h2, h1, this, and_self, if_true, if_false]
+
+theorem cpuStep_jmp (W : World) (t : Tracee) (hcode : peek t.mem (t.regs Rip) % 65536 = JMP_RAX) :
+    cpuStep W t = { t with regs := t.regs.set Rip (t.regs Rax) } := by
+  have : JMP_RAX ≠ SYSCALL := by decide
+  simp only [cpuStep, hcode, this, if_true, if_false]
+
+theorem cpuCont_call (W : World) (t : Tracee) (hcode : peek t.mem (t.regs Rip) % 16777216 = CALL_FN) :
+    cpuCont W t = { (W.callee (atEntry t)) with regs := (W.callee (atEntry t)).regs.set Rip (t.regs Rip + 3) } := by
+  simp only [cpuCont, hcode, if_true]
+
+/-! ### register facts -/
+theorem syscallRet_rax (t : Tracee) (v : Nat) : syscallRet t v Rax = v := by
+  simp [syscallRet, RegFile.set, Rax, Rcx, R11, Rip]
+
+theorem mmapRegs_vals (r : RegFile) :
+    setMany r mmapRegs Rax = MMAP ∧ setMany r mmapRegs Rdi = 0 ∧ setMany r mmapRegs Rsi = PAGE_SIZE
+    ∧ setMany r mmapRegs Rdx = PROT ∧ setMany r mmapRegs R10 = FLAGS ∧ setMany r mmapRegs R8 = W64 - 1
+    ∧ setMany r mmapRegs R9 = 0 ∧ setMany r mmapRegs Rip = r Rip := by
+  simp [setMany, mmapRegs, RegFile.set, Rax, Rdi, Rsi, Rdx, R10, R8, R9, Rip, MMAP, PAGE_SIZE, PROT, FLAGS, W64]
+
+theorem munmapRegs_vals (r : RegFile) (p : Nat) :
+    setMany r (munmapRegs p) Rax = MUNMAP ∧ setMany r (munmapRegs p) Rdi = p ∧ setMany r (munmapRegs p) Rsi = PAGE_SIZE
+    ∧ setMany r (munmapRegs p) Rip = r Rip := by
+  simp [setMany, munmapRegs, RegFile.set, Rax, Rdi, Rsi, Rip, MUNMAP, PAGE_SIZE]
+
+/-! ### the helpers when nothing fails -/
+
+/-- the thread right before / after the single step of `CallHelper::mmap` -/
+def preMmap (c : Ccx) (t : Tracee) : Tracee :=
+  { t with regs := setMany c.regs mmapRegs, mem := poke t.mem c.pc (patch2 c.text SYSCALL) }
+def postMmap (page : Nat) (c : Ccx) (t : Tracee) : Tracee :=
+  { preMmap c t with regs := syscallRet (preMmap c t) page, pages := page :: t.pages,
+                     mem := fun a => if inPage page a then 0 else (preMmap c t).mem a }
+
+theorem mmapH_ok {W : World} (h : NoFail W) (c : Ccx) (d : Dbg) (hc : c.text < W64) (hp : W.mmapRes < W64 - 4095)
+    (hrip : c.regs Rip = c.pc) :
+    (mmapH W c d).1 = .ok W.mmapRes ∧ (mmapH W c d).2.bps = d.bps ∧ (mmapH W c d).2.t = postMmap W.mmapRes c d.t := by
+  have hpl := patch2_lt c.text SYSCALL hc (by decide)
+  have hlow := patch2_low c.text SYSCALL (by decide)
+  obtain ⟨v0, v1, v2, v3, v4, v5, v6, v7⟩ := mmapRegs_vals c.regs
+  have hstep : cpuStep W (preMmap c d.t) = postMmap W.mmapRes c d.t := by
+    rw [cpuStep_mmap W (preMmap c d.t) (by simp [preMmap, v7, hrip, peek_poke_same _ _ _ hpl, hlow])
+      (by simp [preMmap, v0]) (by simp [preMmap, v1]) (by simp [preMmap, v2]) (by simp [preMmap, v3])
+      (by simp [preMmap, v4]) (by simp [preMmap, v5]) (by simp [preMmap, v6]) (isErrno_false _ hp)]
+    rfl
+  have hne : W.mmapRes ≠ W64 - 1 := by unfold W64 at *; omega
+  simp only [mmapH, bind_eq, setregsOp_nf h, pokeOp_nf h, stepOp_nf h, getregsOp_nf h, emit_t]
+  have e : ({ regs := setMany c.regs mmapRegs, mem := poke d.t.mem c.pc (patch2 c.text SYSCALL), pages := d.t.pages,
+              entered := d.t.entered, wild := d.t.wild } : Tracee) = preMmap c d.t := rfl
+  simp only [e, hstep]
+  have hr : (postMmap W.mmapRes c d.t).regs Rax = W.mmapRes := by simp [postMmap, syscallRet_rax]
+  simp only [hr, hne, if_false, pure_eq]
+  refine ⟨?_, ?_, ?_⟩ <;> first | exact True.intro | rfl
+
+/-- `CallHelper::jump` -/
+def preJump (c : Ccx) (dest : Nat) (t : Tracee) : Tracee :=
+  { t with regs := c.regs.set Rax dest, mem := poke t.mem c.pc (patch2 c.text JMP_RAX) }
+def postJump (c : Ccx) (dest : Nat) (t : Tracee) : Tracee :=
+  { preJump c dest t with regs := (c.regs.set Rax dest).set Rip dest }
+
+theorem jumpH_ok {W : World} (h : NoFail W) (c : Ccx) (dest : Nat) (d : Dbg) (hc : c.text < W64) (hrip : c.regs Rip = c.pc) :
+    (jumpH W c dest d).1 = .ok () ∧ (jumpH W c dest d).2.bps = d.bps ∧ (jumpH W c dest d).2.t = postJump c dest d.t := by
+  have hpl := patch2_lt c.text JMP_RAX hc (by decide)
+  have hlow := patch2_low c.text JMP_RAX (by decide)
+  have hr0 : (c.regs.set Rax dest) Rip = c.pc := by
+    unfold RegFile.set; rw [if_neg (by decide)]; exact hrip
+  have hr1 : (c.regs.set Rax dest) Rax = dest := by simp [RegFile.set]
+  have hstep : cpuStep W (preJump c dest d.t) = postJump c dest d.t := by
+    rw [cpuStep_jmp W (preJump c dest d.t) (by simp [preJump, hr0, peek_poke_same _ _ _ hpl, hlow])]
+    simp [postJump, preJump, hr1]
+  simp only [jumpH, bind_eq, setregsOp_nf h, pokeOp_nf h, stepOp_nf h, getregsOp_nf h, emit_t]
+  have e : ({ regs := c.regs.set Rax dest, mem := poke d.t.mem c.pc (patch2 c.text JMP_RAX), pages := d.t.pages,
+              entered := d.t.entered, wild := d.t.wild } : Tracee) = preJump c dest d.t := rfl
+  simp only [e, hstep]
+  have hr : (postJump c dest d.t).regs Rip = dest := by simp [postJump, RegFile.set]
+  simp only [hr, ne_eq, not_true_eq_false, if_false, pure_eq]
+  refine ⟨?_, ?_, ?_⟩ <;> first | exact True.intro | rfl
+
+/-- `CallHelper::call_fn` -/
+def preCall (c : Ccx) (rip fnAddr : Nat) (args : List Nat) (t : Tracee) : Tracee :=
+  { t with regs := ((prepare c.regs args).set Rax fnAddr).set Rip rip, mem := poke t.mem rip CALL_FN }
+def postCall (W : World) (c : Ccx) (rip fnAddr : Nat) (args : List Nat) (t : Tracee) : Tracee :=
+  { (W.callee (atEntry (preCall c rip fnAddr args t))) with
+    regs := (W.callee (atEntry (preCall c rip fnAddr args t))).regs.set Rip (rip + 3) }
+
+theorem callTramp_ok {W : World} (h : NoFail W) (c : Ccx) (rip fnAddr : Nat) (args : List Nat) (d : Dbg) :
+    (callTramp W c rip fnAddr args d).1 = .ok () ∧ (callTramp W c rip fnAddr args d).2.bps = d.bps
+    ∧ (callTramp W c rip fnAddr args d).2.t = postCall W c rip fnAddr args d.t := by
+  have hr0 : (((prepare c.regs args).set Rax fnAddr).set Rip rip) Rip = rip := by simp [RegFile.set]
+  have hcall : CALL_FN % 16777216 = CALL_FN := by decide
+  have hlt : CALL_FN < W64 := by decide
+  have hstep : cpuCont W (preCall c rip fnAddr args d.t) = postCall W c rip fnAddr args d.t := by
+    rw [cpuCont_call W (preCall c rip fnAddr args d.t) (by simp [preCall, hr0, peek_poke_same _ _ _ hlt, hcall])]
+    simp [postCall, preCall, hr0]
+  simp only [callTramp, bind_eq, setregsOp_nf h, pokeOp_nf h, contOp_nf h, emit_t]
+  have e : ({ regs := ((prepare c.regs args).set Rax fnAddr).set Rip rip, mem := poke d.t.mem rip CALL_FN, pages := d.t.pages,
+              entered := d.t.entered, wild := d.t.wild } : Tracee) = preCall c rip fnAddr args d.t := rfl
+  simp only [e, hstep]
+  refine ⟨?_, ?_, ?_⟩ <;> first | exact True.intro | rfl
+
+/-- `CallHelper::munmap` -/
+def preMunmap (c : Ccx) (addr : Nat) (t : Tracee) : Tracee :=
+  { t with regs := setMany c.regs (munmapRegs addr), mem := poke t.mem c.pc (patch2 c.text SYSCALL) }
+def postMunmap (c : Ccx) (addr : Nat) (t : Tracee) : Tracee :=
+  { preMunmap c addr t with
+    regs := syscallRet (preMunmap c addr t) 0, pages := t.pages.erase addr,
+    mem := poke (fun a => if inPage addr a then 0 else (preMunmap c addr t).mem a) c.pc c.text }
+
+theorem munmapH_ok {W : World} (h : NoFail W) (c : Ccx) (addr : Nat) (d : Dbg) (hc : c.text < W64) (hrip : c.regs Rip = c.pc)
+    (hin : addr ∈ d.t.pages) :
+    (munmapH W c addr d).1 = .ok () ∧ (munmapH W c addr d).2.bps = d.bps ∧ (munmapH W c addr d).2.t = postMunmap c addr d.t := by
+  have hpl := patch2_lt c.text SYSCALL hc (by decide)
+  have hlow := patch2_low c.text SYSCALL (by decide)
+  obtain ⟨v0, v1, v2, v3⟩ := munmapRegs_vals c.regs addr
+  have hstep : cpuStep W (preMunmap c addr d.t) =
+      { preMunmap c addr d.t with regs := syscallRet (preMunmap c addr d.t) 0, pages := d.t.pages.erase addr,
+                                  mem := fun a => if inPage addr a then 0 else (preMunmap c addr d.t).mem a } := by
+    rw [cpuStep_munmap W (preMunmap c addr d.t) (by simp [preMunmap, v3, hrip, peek_poke_same _ _ _ hpl, hlow])
+      (by simp [preMunmap, v0]) (by simp [preMunmap, v2]) (by simp [preMunmap, v1, hin])]
+    simp [preMunmap, v1]
+  simp only [munmapH, bind_eq, setregsOp_nf h, pokeOp_nf h, stepOp_nf h, getregsOp_nf h, emit_t]
+  have e : ({ regs := setMany c.regs (munmapRegs addr), mem := poke d.t.mem c.pc (patch2 c.text SYSCALL), pages := d.t.pages,
+              entered := d.t.entered, wild := d.t.wild } : Tracee) = preMunmap c addr d.t := rfl
+  simp only [e, hstep, syscallRet_rax, ne_eq, not_true_eq_false, if_false, pokeOp_nf h, emit_t]
+  refine ⟨?_, ?_, ?_⟩ <;> first | exact True.intro | rfl
+
+end BsVerif.Call
